@@ -1,99 +1,46 @@
-"""E7b -- unit-wise symbolic comparison of the rainflow implementations.
+"""E7b -- symbolic execution of the E7 IR into a transition system between loop heads, and its normal form.
 
-The counting code is cut at its loop heads into *units* (push = the statements of the outer loop before the inner while;
-pop = the body of the inner while; mid = the statements between the two top-level loops; tail = the body of the step-6 loop).
-Every unit is executed once on a symbolic start state along each of its syntactic paths (a data-dependent test forks the
-path and is recorded in the path key; `j == c` substitutes j := c on its true arm).  The result of a path is its effect:
-final values of the state variables, the stores into the work arrays (as a map canonical index -> value), the output rows
-written relative to the row cursor, and whether it left the loop by `break`.
+A function is executed on symbols.  Every loop head is a *cut point*: a path that arrives at a loop head ends there and is recorded
+as a transition  (source cut point, guard, effect, destination cut point);  the loop head is then explored once from a fresh symbolic
+state.  The result for the rainflow kernels is the graph
 
-Two implementations agree when, unit by unit, they have the same paths with the same effects.  This is insensitive to
-temporaries, to the order of independent statements, to statements hoisted out of both arms of an if, to indices written
-as `0` or `j - 2` under `j == 2`, and to the names of unit-local variables; it is sensitive to every value, index, count,
-comparison and update.  No path feasibility is ever decided: both arms of every data-dependent test are followed.
+      START -> H1 -> H2 -> H2 ... -> H1 ... -> H3 -> H3 ... -> END
+
+whatever the loops are spelled like (`for`, `while`, `for(;;)` + `break`, `continue`, early `return`), with helper functions inlined
+and every temporary substituted.  A transition's effect is: new values of the state variables, stores into the work arrays (index ->
+value), stores into the output arrays (flat index -> value), the array accesses made, reference-count / free events, and the returned
+value.  No path feasibility is decided beyond linear integer arithmetic on the path's own tests (Fourier-Motzkin on a handful of
+constraints): both outcomes of every data-dependent test are followed.
+
+`normalise` then brings a transition system to a form in which two implementations of the same automaton are syntactically equal
+up to the names of their state variables:
+  * arrays are named by role (input / value stack / position stack / 3-column output / 2-column output),
+  * a float state variable that provably caches an array element (`A == pts[k]` at the head of the step-6 loop) is replaced by it,
+  * every integer state variable v is re-parametrised v = c0 + g*v' (c0 = its value on entry of the loop nest, g = gcd of its
+    increments): stack index j / stack size sp, fullcyclesp1 / fullcycles, row index n from -1 or 0, an output cursor advancing by
+    3 doubles per row all become the same counter,
+  * integer state variables that are provably equal (two output cursors) are merged, dead variables are dropped,
+  * `x / 2^k` is `2^-k * x` (exact in IEEE arithmetic); `+` and `*` commute; nothing else is re-associated.
+`compare` matches two normal forms transition by transition: every pair of paths whose guards are jointly satisfiable must go to the
+same cut point with the same effect.
 """
 from __future__ import annotations
 
+import itertools
+import math
 from fractions import Fraction
 
+from . import e7_rainir as R
 from .core import Unsupported
-from .e8_karr import Aff, V, aff_of_ir
+from .e8_karr import Aff, V, feasible, tighten, _gcd_all
 
-NCOLS = {"rf": 3, "os": 2}
-
-
-# ---------------------------------------------------------------------------
-# raw lowering: like the emit-grouped IR of e7_rainir but with the individual output stores kept
-def raw_c(low, nodes):
-    """C: statements with ('push', cursor, expr) kept as they are"""
-    out = []
-    for n in nodes:
-        for s in low.stmt(n):
-            out.append(_raw_c_nested(low, s))
-    return out
-
-
-def _raw_c_nested(low, s):
-    return s
-
-
-def ungroup(stmts):
-    """emit-grouped IR -> raw: ('emit', arr, (e0, e1, ..)) becomes ('push', arr, e0), ('push', arr, e1), ..."""
-    out = []
-    for s in stmts:
-        if s[0] == "emit":
-            for e in s[2]:
-                out.append(("push", s[1], e))
-        elif s[0] == "for":
-            out.append(("for", s[1], s[2], s[3], ungroup(s[4])))
-        elif s[0] == "while":
-            out.append(("while", s[1], ungroup(s[2])))
-        elif s[0] == "if":
-            out.append(("if", s[1], ungroup(s[2]), ungroup(s[3])))
-        else:
-            out.append(s)
-    return out
+ZERO = ("num", Fraction(0))
+START, END, RAISE, FAIL, EPI = "START", "END", "RAISE", "FAIL", "EPI"
 
 
 # ---------------------------------------------------------------------------
-def int_vars(stmts, seeds=("L", "k")):
-    """scalars that only ever hold integers: loop variables and variables assigned only affine combinations of integer variables"""
-    assigns = {}
-    loopv = set()
-
-    def walk(ss):
-        for s in ss:
-            if s[0] == "set" and s[1][0] == "var":
-                assigns.setdefault(s[1][1], []).append(s[2])
-            elif s[0] == "for":
-                loopv.add(s[1])
-                walk(s[4])
-            elif s[0] == "while":
-                walk(s[2])
-            elif s[0] == "if":
-                walk(s[2])
-                walk(s[3])
-    walk(stmts)
-    ints = set(seeds) | loopv
-    changed = True
-    while changed:
-        changed = False
-        for v, es in assigns.items():
-            if v in ints:
-                continue
-            ok = True
-            for e in es:
-                a = aff_of_ir(e)
-                if a is None or not (a.vars() - {v}) <= ints or any(c.denominator != 1 for c in list(a.c.values()) + [a.k]):
-                    ok = False
-                    break
-            if ok:
-                ints.add(v)
-                changed = True
-    return ints
-
-
-def _aff_to_ir(a):
+# integer-affine values
+def aff_ir(a):
     """canonical IR of an integer-affine value: a number, a variable, or ('aff', ((var, coef), ...), const)"""
     if not a.c:
         return ("num", a.k)
@@ -102,82 +49,199 @@ def _aff_to_ir(a):
     return ("aff", tuple(sorted((v, c) for v, c in a.c.items())), a.k)
 
 
+def opq_name(e):
+    return "<" + show(e) + ">"
+
+
+def show(e):
+    """compact text of a value (diagnostics, and the name of an opaque integer term)"""
+    if not isinstance(e, tuple) or not e:
+        return str(e)
+    k = e[0]
+    if k == "num":
+        return str(e[1])
+    if k == "var":
+        return e[1]
+    if k == "aff":
+        return repr(Aff(dict(e[1]), e[2])).replace(" ", "")
+    if k == "sel":
+        return f"{e[1]}[{show(e[2])}]"
+    if k == "bin":
+        return f"({show(e[2])}{e[1]}{show(e[3])})"
+    if k == "cmp":
+        return f"({show(e[2])}{e[1]}{show(e[3])})"
+    if k == "abs":
+        return f"|{show(e[1])}|"
+    if k == "neg":
+        return f"-{show(e[1])}"
+    if k == "ptr":
+        return f"&{e[1]}[{show(e[2])}]"
+    if k == "opq":
+        return f"{e[1]}({','.join(show(x) for x in e[2])})"
+    if k == "obj":
+        return f"{e[1]}({','.join(show(x) for x in e[2:])})"
+    if k == "str":
+        return repr(e[1])
+    if k in ("ige", "ieq"):
+        return f"{show(e[1])}{'>=' if k == 'ige' else '=='}0"
+    return k + "(" + ",".join(show(x) for x in e[1:]) + ")"
+
+
+def implied_eqs(cons):
+    """inequalities of the set that can only hold with equality"""
+    out = []
+    for a, k in cons:
+        if k == "ge" and a.c and not feasible(cons + [(a - 1, "ge")]):
+            out.append(a)
+    return out
+
+
+# ---------------------------------------------------------------------------
 class Path:
-    def __init__(self, ints, rowvar=None):
-        self.env = {}          # scalar -> value expr (absent: start value ('var', name))
-        self.arr = {}          # array -> list of (index Aff, value)
-        self.out = {}          # output array -> {(row offset, col): value}
-        self.cur = {}          # C: output cursor advance (number of pushes) per output array
-        self.key = []          # decisions: (canonical test, taken)
-        self.subst = {}        # start-value substitutions from `v == c` tests
-        self.brk = False
-        self.ints = ints
-        self.rowvar = rowvar
-        self.acc = []          # (array, index Aff over the start state, 'r' | 'w')
+    def __init__(self, src):
+        self.src = src
+        self.env = {}
+        self.mem = {}          # base -> [(index Aff, value)]
+        self.acc = []          # (base, index Aff, 'r' | 'w')
+        self.key = []          # (atom, taken)
+        self.cons = []         # (Aff, 'ge' | 'eq')
+        self.events = []
+        self.depth = 0
+        self.subst = {}
 
     def fork(self):
-        p = Path(self.ints, self.rowvar)
+        p = Path(self.src)
         p.env = dict(self.env)
-        p.arr = {k: list(v) for k, v in self.arr.items()}
-        p.out = {k: dict(v) for k, v in self.out.items()}
-        p.cur = dict(self.cur)
-        p.key = list(self.key)
-        p.subst = dict(self.subst)
-        p.brk = self.brk
+        p.mem = {k: list(v) for k, v in self.mem.items()}
         p.acc = list(self.acc)
+        p.key = list(self.key)
+        p.cons = list(self.cons)
+        p.events = list(self.events)
+        p.depth = self.depth
+        p.subst = dict(self.subst)
         return p
 
-    # ---- expressions
-    def ev(self, e):
+
+def is_closed(v):
+    """no reference to the state at the start of the path (start symbols, array contents)"""
+    if isinstance(v, tuple):
+        if v and v[0] in ("var", "sel", "aff", "unknown"):
+            if v[0] == "aff":
+                return False
+            return False
+        return all(is_closed(x) for x in v)
+    return True
+
+
+class Model:
+    """what the executor knows about library calls.  mode 'kernel': unknown calls are refused; mode 'entry': they are opaque terms"""
+    ALLOC1 = ("calloc",)
+    NP_ALLOC = ("np.empty", "np.zeros", "numpy.empty", "numpy.zeros", "np.ones", "np.empty_like")
+
+
+class Exec:
+    def __init__(self, unit, fname, mode="kernel", param_kinds=None, int_names=None, label=None):
+        self.unit = unit
+        self.f = unit.func(fname)
+        self.mode = mode
+        self.label = label or fname
+        self.allocs = {}           # base -> dict(kind, n (Aff | None), rows, cols, dtype, elem)
+        self.templates = {}        # node -> {var: ('int',) | ('float',) | ('ptr', base) | ('const', value)}
+        self.trans = []
+        self.loop_ids = {}
+        self.node_order = [START]
+        self.param_kinds = param_kinds or []
+        self.ints = set(int_names or ())
+        self.floats = set()
+        self.int_decl = dict(getattr(self.f, "ctypes", {}) or {})
+        self.is_c = isinstance(unit, R.CUnit)
+        self.params = [p[0] for p in self.f.params]
+        self._infer_ints()
+        for i, (s, depth, parent) in enumerate(R.loops_of(self.f.body)):
+            self.loop_ids[id(s)] = f"H{i + 1}"
+        self.loops = R.loops_of(self.f.body)
+        self.ncall = 0
+        self.opaque = set()        # functions of the unit that are NOT followed (entry mode: the kernels)
+        self.limit = 4000
+        self.steps = 0
+
+    # ---- typing
+    def _infer_ints(self):
+        if self.is_c:
+            for v, c in self.int_decl.items():
+                if c == "int":
+                    self.ints.add(v)
+                elif c == "float":
+                    self.floats.add(v)
+            return
+        for i, k in enumerate(self.param_kinds):
+            if k == "int" and i < len(self.params):
+                self.ints.add(self.params[i])
+        assigns = {}
+        for s in R.walk_ir(self.f.body):
+            if s[0] == "set" and s[1][0] == "var":
+                assigns.setdefault(s[1][1], []).append(s[2])
+        # greatest fixpoint: every assigned scalar is an integer until one of its assignments is not an integer expression of integers
+        cand = set(assigns)
+        base = set(self.ints)
+        changed = True
+        while changed:
+            changed = False
+            self.ints = base | cand
+            for v in sorted(cand):
+                if not all(self._syn_int(e) for e in assigns[v]):
+                    cand.discard(v)
+                    changed = True
+        self.ints = base | cand
+
+    def _syn_int(self, e):
         k = e[0]
         if k == "num":
-            return e
-        if k == "var":
-            if e[1] in self.env:
-                return self.env[e[1]]
-            if e[1] in self.subst:
-                return ("num", self.subst[e[1]])
-            return e
-        if k == "idx":
-            return self.read(e[1], self.ev(e[2]))
-        if k in ("neg", "abs"):
-            return self.simp((k, self.ev(e[1])))
-        if k in ("bin", "cmp"):
-            return self.simp((k, e[1], self.ev(e[2]), self.ev(e[3])))
-        if k == "aff":
-            return e
-        raise Unsupported(f"expression {e}")
-
-    def is_int(self, e):
-        if e[0] == "num":
             return e[1].denominator == 1
-        if e[0] == "var":
+        if k == "var":
             return e[1] in self.ints
-        if e[0] == "aff":
+        if k == "bin" and e[1] in "+-*":
+            return self._syn_int(e[2]) and self._syn_int(e[3])
+        if k == "neg":
+            return self._syn_int(e[1])
+        return False
+
+    # ---- values
+    def is_int(self, e):
+        k = e[0]
+        if k == "num":
+            return e[1].denominator == 1
+        if k == "var":
+            return e[1] in self.ints
+        if k == "aff":
             return True
-        if e[0] == "bin" and e[1] in "+-*":
+        if k == "opq":
+            return e[3] == "int"
+        if k == "bin" and e[1] in "+-*":
             return self.is_int(e[2]) and self.is_int(e[3])
-        if e[0] == "neg":
+        if k == "neg":
             return self.is_int(e[1])
         return False
 
     def aff(self, e):
-        """Aff of an integer expression (with ('aff', ..) nodes understood), or None"""
-        if e[0] == "aff":
+        k = e[0]
+        if k == "aff":
             return Aff(dict(e[1]), e[2])
-        if e[0] == "num":
+        if k == "num":
             return Aff({}, e[1])
-        if e[0] == "var":
+        if k == "var":
             return V(e[1])
-        if e[0] == "neg":
+        if k == "opq":
+            return V(opq_name(e))
+        if k == "neg":
             a = self.aff(e[1])
             return None if a is None else -a
-        if e[0] == "bin" and e[1] in "+-":
+        if k == "bin" and e[1] in "+-":
             a, b = self.aff(e[2]), self.aff(e[3])
             if a is None or b is None:
                 return None
             return a + b if e[1] == "+" else a - b
-        if e[0] == "bin" and e[1] == "*":
+        if k == "bin" and e[1] == "*":
             a, b = self.aff(e[2]), self.aff(e[3])
             if a is None or b is None:
                 return None
@@ -188,329 +252,1519 @@ class Path:
         return None
 
     def simp(self, e):
-        """integer sub-expressions are brought to an affine normal form; float expressions keep their exact tree (only the two
-        operands of a single + or * are ordered: IEEE addition and multiplication are commutative, not associative)"""
-        if self.is_int(e):
+        k = e[0]
+        if k in ("bin", "neg") and self.is_int(e):
             a = self.aff(e)
             if a is not None:
-                if not a.c:
-                    return ("num", a.k)
-                if len(a.c) == 1 and a.k == 0 and list(a.c.values())[0] == 1:
-                    return ("var", list(a.c)[0])
-                return _aff_to_ir(a)
-        if e[0] == "bin" and e[1] in "+*" and repr(e[3]) < repr(e[2]):
-            return ("bin", e[1], e[3], e[2])
-        if e[0] == "cmp":
-            # integer comparison with both sides known
-            a, b = (self.aff(e[2]) if self.is_int(e[2]) else None), (self.aff(e[3]) if self.is_int(e[3]) else None)
-            if a is not None and b is not None:
-                d = a - b
-                if not d.c:
-                    t = {"<": d.k < 0, ">": d.k > 0, "<=": d.k <= 0, ">=": d.k >= 0, "==": d.k == 0, "!=": d.k != 0}[e[1]]
-                    return ("bool", t)
-                return ("cmp", e[1], _aff_to_ir(d), ("num", Fraction(0)))
+                return aff_ir(a)
+        if k == "bin":
+            op, a, b = e[1], e[2], e[3]
+            if a[0] == "ptr" and op in "+-" and self.is_int(b):
+                off = self.aff(a[2])
+                d = self.aff(b)
+                if off is None or d is None:
+                    raise Unsupported("pointer arithmetic with a non-affine offset")
+                return ("ptr", a[1], aff_ir(off + d if op == "+" else off - d))
+            if b[0] == "ptr" and op == "+" and self.is_int(a):
+                return self.simp(("bin", "+", b, a))
+            if op == "/" and b[0] == "num" and b[1] != 0 and not self.is_int(a):
+                q = b[1]
+                if q > 0 and _is_pow2(q):
+                    return self.simp(("bin", "*", ("num", 1 / q), a))     # exact scaling by a power of two
+            if op in "+*" and repr(b) < repr(a):
+                return ("bin", op, b, a)
+            return e
+        if k == "abs":
+            x = e[1]
+            if x[0] == "bin" and x[1] == "-" and repr(x[3]) < repr(x[2]):
+                return ("abs", ("bin", "-", x[3], x[2]))       # |a - b| == |b - a| exactly
+            return e
+        if k == "cmp":
+            op, a, b = e[1], e[2], e[3]
+            if op == ">":
+                return ("cmp", "<", b, a)
+            if op == ">=":
+                return ("cmp", "<=", b, a)
         return e
 
-    def sub_all(self, var, val):
-        """apply the path fact start(var) == val everywhere"""
-        self.subst[var] = val
-
-        def sx(e):
-            k = e[0]
-            if k == "var":
-                return ("num", val) if e[1] == var else e
-            if k == "aff":
-                a = Aff(dict(e[1]), e[2])
-                if var in a.c:
-                    a = a.subs(var, val)
-                return self.simp(_aff_to_ir(a))
-            if k in ("neg", "abs"):
-                return self.simp((k, sx(e[1])))
-            if k in ("bin", "cmp"):
-                return self.simp((k, e[1], sx(e[2]), sx(e[3])))
-            if k == "sel":
-                return self.simp_sel(e[1], sx(e[2]))
+    # ---- expression evaluation (no forks: `cond`, `and`, `or` are handled by the statement level)
+    def ev(self, e, p):
+        k = e[0]
+        if k in ("num", "str", "null", "bool", "sym", "sizeof"):
             return e
-        self.env = {k: sx(v) for k, v in self.env.items()}
-        for a in list(self.arr):
-            self.arr[a] = [(self._aff_sub(i, var, val), sx(v)) for i, v in self.arr[a]]
-        for o in self.out:
-            self.out[o] = {k: sx(v) for k, v in self.out[o].items()}
-        # decisions already taken keep the test as it was evaluated (siblings of a fork must share it)
+        if k == "var":
+            nm = e[1]
+            if nm in p.env:
+                v = p.env[nm]
+                if v == ("unknown",):
+                    raise Unsupported(f"`{nm}` is read where it has no defined value")
+                return v
+            c = self._module_const(nm)
+            if c is not None:
+                return c
+            return ("var", nm)
+        if k == "idx":
+            b = self.ev(e[1], p)
+            i = self.ev(e[2], p)
+            return self.load(b, i, p)
+        if k == "idx2":
+            b = self.ev(e[1], p)
+            return self.load(b, self._flat(b, self.ev(e[2], p), self.ev(e[3], p)), p)
+        if k == "upto":
+            b = self.ev(e[1], p)
+            s = self.ev(e[2], p)
+            if b[0] != "ptr" or self.aff(b[2]) is None or self.aff(b[2]).c or self.aff(b[2]).k != 0:
+                raise Unsupported("slice of something that is not a whole array")
+            return ("obj", "view", b[1], self._need_int(s, "slice stop"))
+        if k == "neg":
+            return self.simp(("neg", self.ev(e[1], p)))
+        if k == "abs":
+            return self.simp(("abs", self.ev(e[1], p)))
+        if k == "bin":
+            return self.simp(("bin", e[1], self.ev(e[2], p), self.ev(e[3], p)))
+        if k == "cmp":
+            return self.simp(("cmp", e[1], self.ev(e[2], p), self.ev(e[3], p)))
+        if k == "not":
+            v = self.ev(e[1], p)
+            t = self._truth(v)
+            if t is None:
+                return ("not", v)
+            return ("bool", not t)
+        if k == "cond":
+            t = self._truth(self.ev(e[1], p))
+            if t is None:
+                raise Unsupported("`?:` with an undecided test in a value position")
+            return self.ev(e[2] if t else e[3], p)
+        if k in ("and", "or"):
+            raise Unsupported(f"`{k}` in a value position")
+        if k == "tuple":
+            return ("obj", "tuple") + tuple(self.ev(x, p) for x in e[1])
+        if k == "attr":
+            o = self.ev(e[1], p)
+            return self.attr(o, e[2])
+        if k == "addr":
+            lv = e[1]
+            if lv[0] == "var":
+                return ("addrof", lv[1])
+            return ("obj", "addr", ("str", R.fmt_expr(lv)))
+        if k == "call":
+            return self.call(e[1], [self.ev(a, p) for a in e[2]], {n: self.ev(v, p) for n, v in e[3].items()}, p)
+        if k == "callv":
+            f = self.ev(e[1], p)
+            if f[0] == "sym" or (f[0] == "var" and self.unit.helper(f[1]) is not None):
+                return self.call(f[1], [self.ev(a, p) for a in e[2]], {n: self.ev(v, p) for n, v in e[3].items()}, p)
+            raise Unsupported(f"call of a computed function value {show(f)}")
+        raise Unsupported(f"expression {k}")
 
-    @staticmethod
-    def _aff_sub(a, var, val):
-        return a.subs(var, val) if var in a.c else a
+    def _module_const(self, nm):
+        if hasattr(self.unit, "const"):
+            return self.unit.const(nm)
+        return None
 
-    def simp_sel(self, arr, ix):
-        return ("sel", arr, ix)
+    def _need_int(self, v, what):
+        if not self.is_int(v) or self.aff(v) is None:
+            raise Unsupported(f"{what} is not an integer-affine expression: {show(v)}")
+        return aff_ir(self.aff(v))
 
-    # ---- arrays
-    def index_aff(self, ix):
-        a = self.aff(ix) if self.is_int(ix) else None
-        if a is None:
-            raise Unsupported(f"array index is not an integer-affine expression: {ix}")
-        return a
+    def _truth(self, v):
+        k = v[0]
+        if k == "bool":
+            return v[1]
+        if k == "num":
+            return v[1] != 0
+        if k == "null":
+            return False
+        if k in ("ptr", "obj", "str"):
+            return True
+        return None
 
-    def read(self, arr, ix):
-        a = self.index_aff(ix)
-        self.acc.append((arr, a, "r"))
-        for i, v in reversed(self.arr.get(arr, [])):
-            d = a - i
+    def attr(self, o, name):
+        if self.mode != "entry":
+            raise Unsupported(f"attribute .{name}")
+        if name in ("size", "ndim"):
+            return ("opq", name, (o,), "int")
+        if name == "shape":
+            return ("obj", "shape", o)
+        return ("opq", "." + name, (o,), "any")
+
+    def _flat(self, b, r, c):
+        if b[0] != "ptr" or b[1] not in self.allocs or not self.allocs[b[1]].get("cols"):
+            raise Unsupported("two-index access to something that is not a 2-d array allocated here")
+        cols = self.allocs[b[1]]["cols"]
+        ra, ca = self.aff(r) if self.is_int(r) else None, self.aff(c) if self.is_int(c) else None
+        if ra is None or ca is None or ca.c:
+            raise Unsupported("row / column index of a 2-d access")
+        if not (0 <= ca.k < cols):
+            raise Unsupported(f"column {ca.k} of a {cols}-column array")
+        return aff_ir(ra.scale(cols) + ca)
+
+    # ---- memory
+    def _index(self, b, i):
+        if b[0] == "obj" and b[1] == "shape":
+            return None
+        if b[0] != "ptr":
+            raise Unsupported(f"subscript of {show(b)}")
+        off = self.aff(b[2])
+        ia = self.aff(i) if self.is_int(i) else None
+        if off is None or ia is None:
+            raise Unsupported(f"array index is not an integer-affine expression: {show(i)}")
+        return off + ia
+
+    def load(self, b, i, p):
+        if b[0] == "obj" and b[1] == "shape":
+            if i == ZERO:
+                return ("opq", "size", (b[2],), "int")       # shape[0] of a vector is its size (the caller tests ndim == 1)
+            raise Unsupported("shape[i], i != 0")
+        a = self._index(b, i)
+        base = b[1]
+        info = self.allocs.get(base)
+        if info is not None and info["kind"] == "out":
+            raise Unsupported(f"read of the output array {base}")
+        p.acc.append((base, a, "r"))
+        for ix, v in reversed(p.mem.get(base, [])):
+            d = a - ix
             if not d.c:
                 if d.k == 0:
                     return v
                 continue
-            raise Unsupported(f"read {arr}[{a}] after a store to {arr}[{i}] whose relation to it is not decided on this path")
-        return ("sel", arr, _aff_to_ir(a))
-
-    def store(self, arr, ix, val):
-        a = self.index_aff(ix)
-        self.acc.append((arr, a, "w"))
-        self.arr.setdefault(arr, []).append((a, val))
-
-    def array_state(self, arr):
-        st = {}
-        ups = self.arr.get(arr, [])
-        for n, (i, v) in enumerate(ups):
-            # a later store to an index whose relation to i is undecided makes the final value at i ambiguous
-            for i2, _ in ups[n + 1:]:
-                d = i2 - i
-                if d.c:
-                    raise Unsupported(f"two stores to {arr} with undecided index relation ({i} / {i2})")
-            st[_aff_to_ir(i)] = v
-        return st
-
-
-def run_unit(stmts, ints, rowvar, start_env=None):
-    """all paths of a loop-free statement list (nested loops are not allowed inside a unit)"""
-    p0 = Path(ints, rowvar)
-    if start_env:
-        p0.env.update(start_env)
-    paths = [p0]
-    for s in stmts:
-        nxt = []
-        for p in paths:
-            if p.brk:
-                nxt.append(p)
+            if not feasible(p.cons + [(d, "eq")]):
                 continue
-            nxt.extend(_step(s, p))
-        paths = nxt
-    return paths
+            if not feasible(p.cons + [(d - 1, "ge")]) and not feasible(p.cons + [(-d - 1, "ge")]):
+                return v
+            raise Unsupported(f"read {base}[{a}] after a store to {base}[{ix}] whose relation to it is not decided on this path")
+        return ("sel", base, aff_ir(a))
 
+    def store(self, b, i, val, p):
+        a = self._index(b, i)
+        p.acc.append((b[1], a, "w"))
+        p.mem.setdefault(b[1], []).append((a, val))
 
-def _step(s, p):
-    k = s[0]
-    if k == "set":
-        val = p.ev(s[2])
-        if s[1][0] == "var":
-            p.env[s[1][1]] = val
+    # ---- calls
+    def resolve(self, name, p):
+        """a local variable holding a function (`counter = _rainflow2 if getoffsets else _rainflow1`)"""
+        v = p.env.get(name)
+        if v is not None and v[0] in ("var", "sym") and v[1] != name:
+            return v[1]
+        return name
+
+    def call(self, name, args, kw, p):
+        name = self.resolve(name, p)
+        if name in self.opaque:
+            return ("opq", name, tuple(args) + tuple(("kw", n, v) for n, v in sorted(kw.items())), "any")
+        m = self.model_call(name, args, kw, p)
+        if m is not NotImplemented:
+            return m
+        h = self.unit.helper(name)
+        if h is not None:
+            res = []
+            self.inline(h, args, kw, p, lambda q, v: res.append((q, v)))
+            if len(res) != 1 or res[0][0] is not p:
+                raise Unsupported(f"helper {name} called inside an expression forks the path")
+            return res[0][1]
+        if self.mode == "entry":
+            return ("opq", name, tuple(args) + tuple(("kw", n, v) for n, v in sorted(kw.items())), "any")
+        raise Unsupported(f"call of {name}")
+
+    def model_call(self, name, args, kw, p):
+        if name in ("fabs", "abs") and len(args) == 1:
+            return self.simp(("abs", args[0]))
+        if name == "calloc" and len(args) == 2:
+            return ("alloc", "work", self._need_int(args[0], "calloc count"), None, args[1][1] if args[1][0] == "sizeof" else None)
+        if name in Model.NP_ALLOC:
+            shape = args[0] if args else kw.get("shape")
+            dt = args[1] if len(args) > 1 else kw.get("dtype")
+            dts = dt[1] if dt is not None and dt[0] in ("sym", "var", "str") else (None if dt is None else show(dt))
+            if shape is None:
+                raise Unsupported(f"{name} without a shape")
+            if shape[0] == "obj" and shape[1] == "tuple":
+                dims = shape[2:]
+                if len(dims) == 1:
+                    return ("alloc", "work", self._need_int(dims[0], "array length"), None, dts)
+                if len(dims) != 2 or dims[1][0] != "num":
+                    raise Unsupported(f"{name} shape {show(shape)}")
+                return ("alloc", "out", self._need_int(dims[0], "row count"), int(dims[1][1]), dts)
+            return ("alloc", "work", self._need_int(shape, "array length"), None, dts)
+        if name == "PyArray_New" and len(args) >= 4:
+            nd, dims, typ = args[1], args[2], args[3]
+            if nd != ("num", Fraction(2)) or dims[0] != "ptr":
+                raise Unsupported("PyArray_SimpleNew: only 2-d arrays with a local dims[] are modelled")
+            rows = self.load(dims, ZERO, p)
+            cols = self.load(dims, ("num", Fraction(1)), p)
+            p.acc = [a for a in p.acc if a[0] != dims[1]]
+            if cols[0] != "num":
+                raise Unsupported("PyArray_SimpleNew: column count is not a constant")
+            return ("alloc", "out", self._need_int(rows, "row count"), int(cols[1]), typ[1] if typ[0] == "sym" else show(typ))
+        if name in ("PyArray_DATA", "PyArray_BYTES") and len(args) == 1:
+            return args[0]
+        if name == "free" and len(args) == 1:
+            if args[0][0] == "ptr":
+                p.events.append(("free", args[0][1], show(args[0][2])))
+            elif args[0][0] != "null":
+                raise Unsupported(f"free({show(args[0])})")
+            return ("null",)
+        if name in ("Py_DECREF", "Py_XDECREF", "Py_CLEAR") and len(args) == 1:
+            a = args[0]
+            if a[0] == "null":
+                if name == "Py_DECREF":
+                    p.events.append(("decref-null",))
+            elif a[0] == "ptr":
+                p.events.append(("decref", a[1]))
+            elif a[0] == "obj":
+                p.events.append(("decref", show(a)))
+            elif self.mode == "entry":
+                p.events.append(("decref", show(a)))
+            else:
+                raise Unsupported(f"{name}({show(a)})")
+            return ("null",)
+        if name in ("Py_INCREF", "Py_XINCREF") and len(args) == 1:
+            p.events.append(("incref", show(args[0])))
+            return ("null",)
+        if name in ("PyLong_FromSsize_t", "PyLong_FromLong", "PyLong_FromLongLong", "PyLong_FromSize_t") and len(args) == 1:
+            return ("obj", "pylong", self._need_int(args[0], name))
+        if name == "PySlice_New" and len(args) == 3:
+            if args[0][0] != "null" or args[2][0] != "null" or not (args[1][0] == "obj" and args[1][1] == "pylong"):
+                raise Unsupported("PySlice_New: only [:stop] slices are modelled")
+            return ("obj", "slice", args[1][2])
+        if name == "PyObject_GetItem" and len(args) == 2:
+            a, s = args
+            if a[0] == "ptr" and a[2] == ZERO and s[0] == "obj" and s[1] == "slice":
+                return ("obj", "view", a[1], s[2])
+            raise Unsupported(f"PyObject_GetItem({show(a)}, {show(s)})")
+        if name == "Py_BuildValue" and args and args[0][0] == "str":
+            f = args[0][1]
+            if set(f) <= set("NO") and len(f) == len(args) - 1:
+                if "O" in f:
+                    for a in args[1:]:
+                        p.events.append(("incref", show(a)))
+                return args[1] if len(f) == 1 else ("obj", "tuple") + tuple(args[1:])
+            raise Unsupported(f"Py_BuildValue format {f!r}")
+        if self.mode == "entry":
+            return self.entry_call(name, args, kw, p)
+        return NotImplemented
+
+    def entry_call(self, name, args, kw, p):
+        if name == "PyArg_ParseTupleAndKeywords" and len(args) >= 4:
+            fmt = args[2]
+            names = []
+            kl = args[3]
+            if kl[0] == "ptr":
+                for ix, v in p.mem.get(kl[1], []):
+                    if v[0] == "str":
+                        names.append(v[1])
+            outs = args[4:]
+            p.events.append(("parse", fmt[1] if fmt[0] == "str" else None, tuple(names), len(outs)))
+            for i, o in enumerate(outs):
+                if o[0] != "addrof":
+                    raise Unsupported("PyArg_ParseTupleAndKeywords: output argument is not &variable")
+                spec = (fmt[1].replace("|", "").replace("$", "") if fmt[0] == "str" else "")
+                ch = spec[i] if i < len(spec) else "?"
+                if ch == "p":
+                    old = p.env.get(o[1])
+                    p.env[o[1]] = ("opq", "arg", (("num", Fraction(i)), old if old is not None else ("null",)), "int")
+                    self.ints.add(o[1])
+                else:
+                    p.env[o[1]] = ("opq", "arg", (("num", Fraction(i)),), "any")
+            return ("num", Fraction(1))
+        if name in ("PyArray_FromAny", "PyArray_FROM_OTF", "PyArray_FROM_OF", "PyArray_ContiguousFromAny", "PyArray_CheckFromAny") and args:
+            return ("obj", "asarray", args[0])
+        if name in ("np.atleast_1d", "np.asarray", "np.ascontiguousarray", "np.asanyarray") and args:
+            return ("obj", "asarray", args[0])
+        if name == "PyArray_DescrFromType":
+            return ("obj", "descr") + tuple(args)
+        if name == "PyArray_NDIM" and len(args) == 1:
+            return ("opq", "ndim", (args[0],), "int")
+        if name == "PyArray_DIM" and len(args) == 2 and args[1] == ZERO:
+            return ("opq", "size", (args[0],), "int")
+        if name in ("PyArray_DIMS", "PyArray_SHAPE") and len(args) == 1:
+            return ("obj", "shape", args[0])
+        if name == "PyArray_SIZE" and len(args) == 1:
+            return ("opq", "size", (args[0],), "int")
+        if name == "len" and len(args) == 1:
+            return ("opq", "size", (args[0],), "int")
+        if name.startswith("op:"):
+            if len(args) == 2 and all(a[0] == "num" and a[1].denominator == 1 for a in args):
+                x, y = int(args[0][1]), int(args[1][1])
+                r = {"op:&": x & y, "op:|": x | y, "op:^": x ^ y, "op:<<": x << y if 0 <= y < 64 else None, "op:>>": x >> y if 0 <= y < 64 else None}.get(name)
+                if r is not None:
+                    return ("num", Fraction(r))
+            return ("opq", name, tuple(args), "int")
+        if name in ("PyErr_SetString", "PyErr_Format", "PyErr_SetObject"):
+            p.events.append(("seterr", show(args[0]) if args else None))
+            return ("null",)
+        return NotImplemented
+
+    def inline(self, h, args, kw, p, kret):
+        """execute helper h on the argument values; kret(path, value) is called for every path that returns"""
+        p.depth += 1
+        if p.depth > 4:
+            raise Unsupported("helper calls nested deeper than 4")
+        self.ncall += 1
+        pre = f"{h.name}${self.ncall}$"
+        names = [a[0] for a in h.params]
+        if len(args) > len(names):
+            raise Unsupported(f"too many arguments for {h.name}")
+        bound = dict(zip(names, args))
+        for n, v in kw.items():
+            if n not in names or n in bound:
+                raise Unsupported(f"keyword {n} of {h.name}")
+            bound[n] = v
+        for n in names:
+            if n not in bound:
+                d = getattr(h, "defaults", {}).get(n)
+                if d is None:
+                    raise Unsupported(f"argument {n} of {h.name} is missing")
+                bound[n] = self.ev(R.PyFunc.expr(h, d), p)
+        local = set(names) | R.assigned_vars(h.body)
+        body = rename_ir(h.body, {n: pre + n for n in local})
+        for n, v in bound.items():
+            p.env[pre + n] = v
+        for n in local:
+            cls = getattr(h, "ctypes", {}).get(n)
+            if cls == "int":
+                self.ints.add(pre + n)
+        if any(s[0] == "loop" for s in R.walk_ir(body)):
+            raise Unsupported(f"helper {h.name} contains a loop")
+
+        def done(q, v):
+            for n in list(q.env):
+                if n.startswith(pre):
+                    del q.env[n]
+            q.depth -= 1
+            kret(q, v)
+        K = dict(fall=lambda q: done(q, ("null",)), brk=None, cont=None, ret=done)
+        self.block(body, p, K)
+
+    # ---- statements (continuation passing: K = dict(fall, brk, cont, ret))
+    def block(self, stmts, p, K):
+        if not stmts:
+            return K["fall"](p)
+        self.steps += 1
+        if self.steps > 200000:
+            raise Unsupported("symbolic execution does not terminate")
+        s, rest = stmts[0], stmts[1:]
+        if s[0] in ("set", "unpack", "expr", "return", "raise", "if"):
+            s2 = hoist_cond(s)
+            if s2 is not None:
+                return self.block([s2] + list(rest), p, K)
+        nxt = (lambda q: self.block(rest, q, K)) if rest else K["fall"]
+        k = s[0]
+        if k == "set":
+            return self.assign(s[1], s[2], p, nxt)
+        if k == "unpack":
+            return self.eval_then(s[2], p, lambda q, v: self._unpack(s[1], v, q, nxt))
+        if k == "expr":
+            return self.eval_then(s[1], p, lambda q, v: nxt(q))
+        if k == "havoc":
+            p.env[s[1]] = ("unknown",)
+            return nxt(p)
+        if k == "if":
+            K2 = dict(K, fall=nxt)
+            return self.branch(s[1], p, lambda q: self.block(s[2], q, K2), lambda q: self.block(s[3], q, K2))
+        if k == "break":
+            if K["brk"] is None:
+                raise Unsupported("break outside a loop")
+            return K["brk"](p)
+        if k == "continue":
+            if K["cont"] is None:
+                raise Unsupported("continue outside a loop")
+            return K["cont"](p)
+        if k == "return":
+            if s[1] is None:
+                return K["ret"](p, ("null",))
+            return self.eval_then(s[1], p, lambda q, v: K["ret"](q, v))
+        if k == "raise":
+            v = None
+            if s[1] is not None:
+                e = s[1]
+                if e[0] == "call":
+                    v = ("obj", "exc", ("str", e[1])) + tuple(self.ev(a, p) for a in e[2])
+                else:
+                    v = self.ev(e, p)
+            return self.finish(p, RAISE, exc=v)
+        if k == "goto":
+            return self.finish(p, FAIL, exc=("goto", s[1]))
+        if k == "label":
+            return nxt(p)
+        if k == "loop":
+            return self.loop(s, p, nxt, K)
+        raise Unsupported(f"statement {k}")
+
+    def _unpack(self, lvs, v, p, nxt):
+        if not (v[0] == "obj" and v[1] == "tuple" and len(v) - 2 == len(lvs)):
+            raise Unsupported(f"unpacking of {show(v)}")
+        for lv, x in zip(lvs, v[2:]):
+            self._store_lv(lv, x, p)
+        return nxt(p)
+
+    def eval_then(self, e, p, k):
+        """evaluate e (a helper call at the top of e may fork the path) and continue with k(path, value)"""
+        if e[0] == "call":
+            nm = self.resolve(e[1], p)
+            h = self.unit.helper(nm) if nm not in self.opaque else None
+            if h is not None:
+                args = [self.ev(a, p) for a in e[2]]
+                kw = {n: self.ev(v, p) for n, v in e[3].items()}
+                return self.inline(h, args, kw, p, k)
+        if e[0] == "callv":
+            f = self.ev(e[1], p)
+            if f[0] in ("sym", "var") and self.unit.helper(f[1]) is not None:
+                return self.eval_then(("call", f[1], e[2], e[3]), p, k)
+        return k(p, self.ev(e, p))
+
+    def assign(self, lv, e, p, nxt):
+        def k(q, v):
+            self._store_lv(lv, v, q)
+            return nxt(q)
+        return self.eval_then(e, p, k)
+
+    def _store_lv(self, lv, v, p):
+        if lv[0] == "var":
+            if v[0] == "alloc":
+                base = lv[1]
+                if base in self.allocs:
+                    raise Unsupported(f"{base} is allocated twice")
+                _, kind, n, cols, dt = v
+                na = self.aff(n)
+                self.allocs[base] = dict(kind=kind, rows=na, cols=cols, n=na.scale(cols) if cols else na, dtype=dt, order=len(self.allocs))
+                p.events.append(("alloc", base))
+                v = ("ptr", base, ZERO)
+            p.env[lv[1]] = v
+            return
+        if v[0] == "alloc":
+            raise Unsupported("allocation stored into an array element")
+        b = self.ev(lv[1], p)
+        if lv[0] == "idx":
+            if b[0] == "var" and lv[1][0] == "var":
+                # a local C array (`npy_intp dims[2]`): its own little memory
+                b = ("ptr", "local:" + lv[1][1], ZERO)
+                p.env[lv[1][1]] = b
+            self.store(b, self.ev(lv[2], p), v, p)
         else:
-            p.store(s[1][1], p.ev(s[1][2]), val)
-        return [p]
-    if k == "push":          # C: *cursor++ = e
-        arr = s[1]
-        n = p.cur.get(arr, 0)
-        nc = NCOLS.get(arr)
-        if nc is None:
-            raise Unsupported(f"push through an unknown cursor {arr}")
-        p.out.setdefault(arr, {})[(n // nc, n % nc)] = p.ev(s[2])
-        p.cur[arr] = n + 1
-        return [p]
-    if k == "cell":          # Python: arr[row, col] = e  with row = rowvar (+ const)
-        _, arr, r, c, e = s
-        row = p.ev(r)
-        a = p.index_aff(row)
-        # row relative to the cursor at unit start: the counter holds the index of the last row written
-        d = a - V(p.rowvar)
-        if d.c:
-            raise Unsupported(f"output row {a} is not the row counter plus a constant")
-        off = int(d.k) - 1
-        if off < 0:
-            raise Unsupported("output row written at or before the row the counter already points to")
-        p.out.setdefault(arr, {})[(off, c)] = p.ev(e)
-        return [p]
-    if k == "break":
-        p.brk = True
-        return [p]
-    if k == "if":
-        c = p.ev(s[1])
-        if c[0] == "bool":
-            arm = s[2] if c[1] else s[3]
-            return _run_arm(arm, [p])
+            self.store(b, self._flat(b, self.ev(lv[2], p), self.ev(lv[3], p)), v, p)
+
+    # ---- tests
+    def branch(self, c, p, kt, kf):
+        k = c[0]
+        if k == "not":
+            return self.branch(c[1], p, kf, kt)
+        if k == "and":
+            return self.branch(c[1], p, lambda q: self.branch(c[2], q, kt, kf), kf)
+        if k == "or":
+            return self.branch(c[1], p, kt, lambda q: self.branch(c[2], q, kt, kf))
+        if k == "cond":
+            return self.branch(c[1], p, lambda q: self.branch(c[2], q, kt, kf), lambda q: self.branch(c[3], q, kt, kf))
+        v = self.ev(c, p)
+        return self.branch_value(v, p, kt, kf)
+
+    def branch_value(self, v, p, kt, kf):
+        t = self._truth(v)
+        if t is not None:
+            return kt(p) if t else kf(p)
+        if v[0] == "not":
+            return self.branch_value(v[1], p, kf, kt)
+        if v[0] == "unknown":
+            raise Unsupported("test of an undefined value")
+        if v[0] == "cmp":
+            op, a, b = v[1], v[2], v[3]
+            na, nb = a[0] in ("null",), b[0] in ("null",)
+            pa, pb = a[0] in ("ptr", "obj", "str"), b[0] in ("ptr", "obj", "str")
+            if (na or pa) and (nb or pb):
+                eq = (na and nb) or (pa and pb and a == b)
+                if pa and pb and a != b:
+                    raise Unsupported("comparison of two pointers")
+                res = eq if op == "==" else (not eq if op == "!=" else None)
+                if res is None:
+                    raise Unsupported("ordering of pointers")
+                return kt(p) if res else kf(p)
+            if self.is_int(a) and self.is_int(b):
+                aa, bb = self.aff(a), self.aff(b)
+                if aa is not None and bb is not None:
+                    d = aa - bb
+                    if op == "==":
+                        return self.fork_int(p, ("ieq", d), kt, kf)
+                    if op == "!=":
+                        return self.fork_int(p, ("ieq", d), kf, kt)
+                    if op == "<":         # canonical form after simp: only < and <=
+                        return self.fork_int(p, ("ige", -d - 1), kt, kf)
+                    if op == "<=":
+                        return self.fork_int(p, ("ige", -d), kt, kf)
+            t, f = p, p.fork()
+            t.key.append((v, True))
+            f.key.append((v, False))
+            kt(t)
+            return kf(f)
+        if self.is_int(v) and self.aff(v) is not None:
+            return self.fork_int(p, ("ieq", self.aff(v)), kf, kt)      # truth of an integer: v != 0
         t, f = p, p.fork()
-        # `v == const` on a start value: substitute on the true arm
-        if c[0] == "cmp" and c[1] == "==" and c[2][0] == "aff" and len(c[2][1]) == 1 and c[2][1][0][1] in (1, -1) and c[3] == ("num", Fraction(0)):
-            (var, co), = c[2][1]
-            val = -c[2][2] / co
-            t.key.append((c, True))
-            f.key.append((c, False))
-            t.sub_all(var, val)
+        t.key.append((("truth", v), True))
+        f.key.append((("truth", v), False))
+        kt(t)
+        return kf(f)
+
+    def fork_int(self, p, atom, kt, kf):
+        kind, d = atom
+        if not d.c:
+            res = (d.k == 0) if kind == "ieq" else (d.k >= 0)
+            return kt(p) if res else kf(p)
+        t, f = p, p.fork()
+        irx = (kind, aff_ir(d))
+        # true arm
+        if kind == "ieq":
+            tcons = [(d, "eq")]
+            fcons_alt = [[(d - 1, "ge")], [(-d - 1, "ge")]]
         else:
-            t.key.append((c, True))
-            f.key.append((c, False))
-        return _run_arm(s[2], [t]) + _run_arm(s[3], [f])
-    if k in ("for", "while"):
-        raise Unsupported("loop inside a unit")
-    raise Unsupported(f"statement {k}")
+            tcons = [(d, "ge")]
+            fcons_alt = [[(-d - 1, "ge")]]
+        if feasible(t.cons + tcons):
+            t.cons += tcons
+            t.key.append((irx, True))
+            self._apply_eqs(t)
+            kt(t)
+        alts = [a for a in fcons_alt if feasible(f.cons + a)]
+        if alts:
+            if len(alts) == 1:
+                f.cons += alts[0]
+            f.key.append((irx, False))
+            self._apply_eqs(f)
+            kf(f)
 
-
-def _run_arm(stmts, paths):
-    for s in stmts:
-        nxt = []
-        for p in paths:
-            if p.brk:
-                nxt.append(p)
-            else:
-                nxt.extend(_step(s, p))
-        paths = nxt
-    return paths
-
-
-# ---------------------------------------------------------------------------
-def split_units(region):
-    """region = [outer for, mid sets..., tail for]  ->  dict of units"""
-    outer, tail = region[0], region[-1]
-    mid = list(region[1:-1])
-    if outer[0] != "for" or tail[0] != "for":
-        raise Unsupported("region is not (count loop, ..., step-6 loop)")
-    body = outer[4]
-    wh = [i for i, s in enumerate(body) if s[0] == "while"]
-    if len(wh) != 1 or wh[0] != len(body) - 1:
-        raise Unsupported("the count loop body is not (push statements..., inner while)")
-    w = body[wh[0]]
-    return {"outer_range": (outer[1], outer[2], outer[3]), "push": body[:wh[0]], "while_cond": w[1], "pop": w[2],
-            "mid": mid, "tail_range": (tail[1], tail[2], tail[3]), "tail": tail[4]}
-
-
-def effects(region, rowvar=None, drop_arrays=(), drop_outputs=()):
-    """{unit: {path key: effect}} and the set of state variables (scalars read before written in some unit)"""
-    raw = ungroup(region)
-    ints = int_vars(raw) | ({rowvar} if rowvar else set())
-    u = split_units(raw)
-    res = {}
-    state = set()
-    for name in ("push", "pop", "mid", "tail"):
-        paths = run_unit(u[name], ints, rowvar)
-        eff = {}
-        for p in paths:
-            key = tuple((repr(t), taken) for t, taken in p.key)
-            outs = {a: {k: v for k, v in d.items()} for a, d in p.out.items() if a not in drop_outputs}
-            rows = {}
-            for a, d in outs.items():
-                nrows = 1 + max(r for r, _ in d) if d else 0
-                # every cell of every row written exactly once
-                want = {(r, c) for r in range(nrows) for c in range(NCOLS[a])}
-                if set(d) != want:
-                    raise Unsupported(f"unit {name}: output {a} rows are not written completely ({sorted(d)})")
-                rows[a] = nrows
-            for a, n in p.cur.items():
-                if a in drop_outputs:
+    def _apply_eqs(self, p):
+        """equalities implied by the path's integer tests are applied to everything the path has computed so far
+        (`j == 2`, or `j >= 2` and not `j > 2`, turn pts[j - 2] into pts[0])"""
+        for _ in range(8):
+            eqs = [a for a, k in p.cons if k == "eq" and a.c] + implied_eqs(p.cons)
+            progress = False
+            for e in eqs:
+                if any(v in p.subst for v in e.c):
+                    continue          # a defining equality kept for feasibility
+                cand = [v for v, x in sorted(e.c.items()) if abs(x) == 1 and not v.startswith("<")]
+                if not cand:
                     continue
-                if n % NCOLS[a]:
-                    raise Unsupported(f"unit {name}: cursor {a} advanced by {n}, not a whole number of rows")
-            scal = {}
-            for v, val in p.env.items():
-                scal[v] = val
-            if rowvar and rowvar in scal:
-                a = p.index_aff(scal[rowvar]) - V(rowvar)
-                if a.c:
-                    raise Unsupported("row counter is not advanced by a constant")
-                adv = int(a.k)
-                for arr, n in rows.items():
-                    if n != adv:
-                        raise Unsupported(f"unit {name}: {n} rows written to {arr} but the row counter advanced by {adv}")
-                del scal[rowvar]
-            elif rowvar and rows and any(rows.values()):
-                raise Unsupported(f"unit {name}: rows written without advancing the row counter")
-            eff[key] = {"acc": list(p.acc), "subst": dict(p.subst), "scalars": scal, "arrays": {a: p.array_state(a) for a in p.arr if a not in drop_arrays}, "out": outs, "rows": rows,
-                        "break": p.brk, "keyexpr": [(t, taken) for t, taken in p.key]}
-        res[name] = eff
-    # state variables: read (as start values) anywhere in some effect or test
-    def vars_in(e, acc):
-        if isinstance(e, tuple):
-            if e and e[0] == "var":
-                acc.add(e[1])
-            elif e and e[0] == "aff":
-                acc.update(v for v, _ in e[1])
+                v = cand[0]
+                rest = Aff({w: x for w, x in e.c.items() if w != v}, e.k).scale(-1 / e.c[v])
+                self._sub_all(p, v, rest)
+                newc = []
+                for a, k in p.cons:
+                    bb = a.subs(v, rest)
+                    if bb.c:
+                        newc.append((bb, k))
+                p.cons = newc + [(V(v) - rest, "eq")]
+                progress = True
+                break
+            if not progress:
+                return
+
+    def _sub_all(self, p, var, val):
+        def fa(a):
+            return a.subs(var, val) if var in a.c else a
+
+        def sx(e):
+            return map_value(e, fa, self)
+        p.env = {k: sx(v) for k, v in p.env.items()}
+        for b in list(p.mem):
+            p.mem[b] = [(fa(i), sx(v)) for i, v in p.mem[b]]
+        p.acc = [(b, fa(i), rw) for b, i, rw in p.acc]
+        p.subst[var] = val
+
+    # ---- loops and cut points
+    def loop(self, s, p, nxt, K):
+        lid = self.loop_ids.get(id(s))
+        if lid is None:
+            raise Unsupported("loop inside a helper function")
+        node = lid
+        tops = [x for x, depth, parent in self.loops if depth == 0]
+        if tops and s is tops[-1]:
+            # the code after the last top-level loop (release of the buffers, slicing, return) is its own unit: cut point EPI
+            after = nxt
+            nxt = lambda q: self.arrive(EPI, ("loop", None, [], []), q, after)     # noqa: E731
+
+        def from_head(q):
+            def after_body(r):
+                return self.block(s[3], r, dict(K, fall=lambda z: self.arrive(node, s, z, from_head), brk=None, cont=None))
+            Kb = dict(K, fall=after_body, brk=nxt, cont=after_body)
+            if s[1] is None:
+                return self.block(s[2], q, Kb)
+            return self.branch(s[1], q, lambda r: self.block(s[2], r, Kb), nxt)
+        return self.arrive(node, s, p, from_head)
+
+    def arrive(self, node, s, p, from_head):
+        first = node not in self.templates
+        if first:
+            self.templates[node] = self.make_template(node, s, p)
+            self.node_order.append(node)
+        self.record(p, node)
+        if first:
+            q = Path(node)
+            for v, kind in self.templates[node].items():
+                if kind[0] == "const":
+                    q.env[v] = kind[1]
+                elif kind[0] == "ptr":
+                    q.env[v] = ("ptr", kind[1], ("var", v))
+                else:
+                    q.env[v] = ("var", v)
+            from_head(q)
+
+    def make_template(self, node, s, p):
+        assigned = R.assigned_vars(s[2]) | R.assigned_vars(s[3])
+        t = {}
+        for v, val in p.env.items():
+            if "$" in v:
+                raise Unsupported("a helper's local variable is live at a loop head")
+            if val == ("unknown",):
+                t[v] = ("const", val)
+            elif is_closed(val) and v not in assigned:
+                t[v] = ("const", val)
+            elif val[0] == "ptr":
+                t[v] = ("ptr", val[1])
+                self.ints.add(v)
+            elif val[0] in ("obj", "str", "null", "alloc", "addrof"):
+                if v in assigned:
+                    raise Unsupported(f"object-valued variable {v} is assigned inside a loop")
+                t[v] = ("const", val)
+            elif v in self.ints:
+                t[v] = ("int",)
             else:
-                for x in e:
-                    vars_in(x, acc)
-        elif isinstance(e, (list,)):
-            for x in e:
-                vars_in(x, acc)
-        elif isinstance(e, dict):
-            for x in e.values():
-                vars_in(x, acc)
-    for name, eff in res.items():
-        for key, d in eff.items():
-            acc = set()
-            vars_in(list(d["scalars"].values()), acc)
-            vars_in([list(x.values()) for x in d["arrays"].values()], acc)
-            vars_in([list(x.values()) for x in d["out"].values()], acc)
-            vars_in([t for t, _ in d["keyexpr"]], acc)
-            state |= acc
-    res["while_cond"] = u["while_cond"]
-    res["outer_range"] = u["outer_range"]
-    res["tail_range"] = u["tail_range"]
-    res["ints"] = ints
-    return res, state
+                t[v] = ("float",)
+        return t
+
+    def record(self, p, dst, ret=None, exc=None):
+        if len(self.trans) > self.limit:
+            raise Unsupported("too many paths")
+        self.trans.append(dict(src=p.src, dst=dst, key=list(p.key), cons=list(p.cons), env=dict(p.env), mem={b: list(v) for b, v in p.mem.items()},
+                               acc=list(p.acc), events=list(p.events), ret=ret, exc=exc, subst=dict(p.subst)))
+
+    def finish(self, p, dst, ret=None, exc=None):
+        self.record(p, dst, ret=ret, exc=exc)
+
+    # ---- driver
+    def run(self, args=None):
+        p = Path(START)
+        for i, (nm, cls, q) in enumerate(self.f.params):
+            kind = self.param_kinds[i] if i < len(self.param_kinds) else None
+            if args is not None and i < len(args):
+                p.env[nm] = args[i]
+            elif kind == "array":
+                base = f"param:{nm}"
+                self.allocs[base] = dict(kind="input", rows=None, cols=None, n=None, dtype=None, order=-1)
+                p.env[nm] = ("ptr", base, ZERO)
+            elif kind == "int":
+                self.ints.add(nm)
+                p.env[nm] = ("var", nm)
+            else:
+                p.env[nm] = ("opq", "param", (("str", nm),), "any")
+        K = dict(fall=lambda q: self.finish(q, END, ret=("null",)), brk=None, cont=None, ret=lambda q, v: self.finish(q, END, ret=v))
+        self.block(self.f.body, p, K)
+        return self
 
 
-def _rename_expr(e, mp):
+def _find_cond(e):
+    """first ('cond', c, a, b) inside an expression (depth first), or None"""
+    if isinstance(e, tuple) and e:
+        if e[0] == "cond":
+            return e
+        for x in e[1:]:
+            r = _find_cond(x)
+            if r is not None:
+                return r
+    elif isinstance(e, list):
+        for x in e:
+            r = _find_cond(x)
+            if r is not None:
+                return r
+    elif isinstance(e, dict):
+        for x in e.values():
+            r = _find_cond(x)
+            if r is not None:
+                return r
+    return None
+
+
+def _replace(e, old, new):
+    if e is old:
+        return new
     if isinstance(e, tuple):
-        if e and e[0] == "var":
-            return ("var", mp.get(e[1], e[1]))
-        if e and e[0] == "sel":
-            return ("sel", mp.get("[]" + e[1], e[1]), _rename_expr(e[2], mp))
-        if e and e[0] == "aff":
-            a = Aff({mp.get(v, v): c for v, c in e[1]}, e[2])
-            return _aff_to_ir(a)
-        if e and e[0] == "bin" and e[1] in "+*":
-            a, b = _rename_expr(e[2], mp), _rename_expr(e[3], mp)
-            if repr(b) < repr(a):
-                a, b = b, a
-            return ("bin", e[1], a, b)
-        return tuple(_rename_expr(x, mp) for x in e)
+        return tuple(_replace(x, old, new) for x in e)
+    if isinstance(e, list):
+        return [_replace(x, old, new) for x in e]
+    if isinstance(e, dict):
+        return {k: _replace(v, old, new) for k, v in e.items()}
     return e
 
 
-def normal_form(res, state, mp=None, live=None):
-    """comparable form of the effects: only live (state) scalars are kept; names mapped through mp"""
-    mp = mp or {}
-    live = state if live is None else live
-    out = {}
-    for name in ("push", "pop", "mid", "tail"):
-        eff = {}
-        for key, d in res[name].items():
-            k2 = tuple(sorted((repr(_rename_expr(t, mp)), taken) for t, taken in d["keyexpr"]))
-            sc = {mp.get(v, v): repr(_rename_expr(val, mp)) for v, val in d["scalars"].items() if v in live}
-            ar = {mp.get("[]" + a, a): {repr(_rename_expr(i, mp)): repr(_rename_expr(v, mp)) for i, v in st.items()} for a, st in d["arrays"].items()}
-            ou = {mp.get("[]" + a, a): {k: repr(_rename_expr(v, mp)) for k, v in dd.items()} for a, dd in d["out"].items()}
-            eff[k2] = {"scalars": sc, "arrays": ar, "out": ou, "break": d["break"]}
-        out[name] = eff
-    out["while_cond"] = repr(_rename_expr(res["while_cond"], mp))
-    out["outer_range"] = tuple(repr(_rename_expr(x, mp)) if isinstance(x, tuple) else mp.get(x, x) for x in res["outer_range"])
-    out["tail_range"] = tuple(repr(_rename_expr(x, mp)) if isinstance(x, tuple) else mp.get(x, x) for x in res["tail_range"])
+def hoist_cond(s):
+    """a statement with a conditional expression inside an expression  ->  `if c: stmt[a] else: stmt[b]` (expressions are pure in this IR:
+    every side effect is a statement); None when there is nothing to hoist"""
+    if s[0] == "if":
+        c = _find_cond(s[1])
+        if c is None or c is s[1]:
+            return None
+        return ("if", c[1], [("if", _replace(s[1], c, c[2]), s[2], s[3])], [("if", _replace(s[1], c, c[3]), s[2], s[3])])
+    parts = s[1:]
+    c = _find_cond(list(parts))
+    if c is None:
+        return None
+    return ("if", c[1], [(s[0],) + tuple(_replace(list(parts), c, c[2]))], [(s[0],) + tuple(_replace(list(parts), c, c[3]))])
+
+
+def _is_pow2(q):
+    q = Fraction(q)
+    n, d = q.numerator, q.denominator
+    return (n == 1 and d & (d - 1) == 0) or (d == 1 and n & (n - 1) == 0)
+
+
+def rename_ir(stmts, mp):
+    def rx(e):
+        if isinstance(e, tuple):
+            if e and e[0] == "var":
+                return ("var", mp.get(e[1], e[1]))
+            return tuple(rx(x) for x in e)
+        if isinstance(e, list):
+            return [rx(x) for x in e]
+        if isinstance(e, dict):
+            return {k: rx(v) for k, v in e.items()}
+        return e
+    out = []
+    for s in stmts:
+        if s[0] == "havoc":
+            out.append(("havoc", mp.get(s[1], s[1])))
+        elif s[0] in ("goto", "label"):
+            out.append(s)
+        else:
+            out.append(rx(s))
     return out
 
 
-def _parse_index(s):
-    # array_state keys are repr(Aff); keep them as opaque strings but allow renaming by re-parsing through Aff's own format
-    return ("idxrepr", s)
+def map_value(e, fa, ex):
+    """rebuild a value with every integer-affine leaf a replaced by fa(a) (an Aff -> Aff map) and re-simplified"""
+    if not isinstance(e, tuple) or not e:
+        return e
+    k = e[0]
+    if k == "var":
+        if e[1] in ex.ints:
+            return aff_ir(fa(V(e[1])))
+        return e
+    if k == "aff":
+        return aff_ir(fa(Aff(dict(e[1]), e[2])))
+    if k == "opq" and e[3] == "int":
+        return aff_ir(fa(V(opq_name(e))))
+    if k in ("num", "str", "null", "bool", "sym", "unknown"):
+        return e
+    if k == "sel":
+        return ("sel", e[1], map_value(e[2], fa, ex))
+    if k in ("bin", "cmp"):
+        return ex.simp((k, e[1], map_value(e[2], fa, ex), map_value(e[3], fa, ex)))
+    if k in ("abs", "neg", "not"):
+        r = (k, map_value(e[1], fa, ex))
+        return ex.simp(r) if k in ("neg", "abs") else r
+    if k == "ptr":
+        return ("ptr", e[1], map_value(e[2], fa, ex))
+    if k in ("ige", "ieq"):
+        return (k, map_value(e[1], fa, ex))
+    return tuple(map_value(x, fa, ex) if isinstance(x, tuple) else x for x in e)
 
 
-def first_difference(a, b):
-    for name in ("outer_range", "while_cond", "tail_range"):
-        if a[name] != b[name]:
-            return {"where": name, "left": a[name], "right": b[name]}
-    for name in ("push", "pop", "mid", "tail"):
-        ka, kb = set(a[name]), set(b[name])
-        if ka != kb:
-            return {"unit": name, "paths only left": [list(k) for k in sorted(ka - kb)][:2], "paths only right": [list(k) for k in sorted(kb - ka)][:2]}
-        for k in sorted(ka):
-            x, y = a[name][k], b[name][k]
-            for part in ("break", "scalars", "arrays", "out"):
-                if x[part] != y[part]:
-                    return {"unit": name, "path": list(k), "part": part, "left": x[part], "right": y[part]}
+# ---------------------------------------------------------------------------
+# transition systems
+class TS:
+    """nodes (cut points) in order of discovery, phase of every node (index of its top-level loop; START = 0, exits = 99),
+    state variables of every node {var: 'int' | 'float'}, transitions (dicts: src, dst, key, scal, arrays, acc, events, ret, exc)"""
+
+    def __init__(self, ex):
+        self.ex = ex
+        self.label = ex.label
+        self.nodes = []
+        self.phase = {}
+        self.state = {}
+        self.trans = []
+        self.allocs = {}
+        self.roles = {}
+        self.notes = []
+
+    def copy(self):
+        t = TS(self.ex)
+        t.nodes = list(self.nodes)
+        t.phase = dict(self.phase)
+        t.state = {n: dict(s) for n, s in self.state.items()}
+        t.trans = [dict(x, key=list(x["key"]), scal=dict(x["scal"]), arrays={b: list(v) for b, v in x["arrays"].items()}, acc=list(x["acc"])) for x in self.trans]
+        t.allocs = {k: dict(v) for k, v in self.allocs.items()}
+        t.roles = dict(self.roles)
+        t.notes = list(self.notes)
+        return t
+
+    def from_(self, node):
+        return [t for t in self.trans if t["src"] == node]
+
+    def entries(self, p):
+        return [t for t in self.trans if self.phase[t["src"]] < p == self.phase[t["dst"]]]
+
+    def inner(self, p):
+        return [t for t in self.trans if self.phase[t["src"]] == p == self.phase[t["dst"]]]
+
+    def phases(self):
+        return sorted({p for p in self.phase.values() if 0 < p < 98})
+
+    def int_vars(self):
+        return sorted({v for s in self.state.values() for v, k in s.items() if k == "int"})
+
+    def float_vars(self):
+        return sorted({v for s in self.state.values() for v, k in s.items() if k == "float"})
+
+
+def values_of(t):
+    """every value of a transition (for traversals)"""
+    for a, _ in t["key"]:
+        yield a
+    yield from t["scal"].values()
+    for st in t["arrays"].values():
+        for i, v in st:
+            yield aff_ir(i)
+            yield v
+    for b, i, rw in t["acc"]:
+        yield aff_ir(i)
+    if t.get("ret") is not None:
+        yield t["ret"]
+    if t.get("exc") is not None and isinstance(t["exc"], tuple):
+        yield t["exc"]
+
+
+def free_vars(e, acc=None):
+    acc = set() if acc is None else acc
+    if isinstance(e, tuple) and e:
+        if e[0] == "var":
+            acc.add(e[1])
+        elif e[0] == "aff":
+            acc.update(v for v, _ in e[1] if not v.startswith("<"))
+            for v, _ in e[1]:
+                if v.startswith("<"):
+                    pass
+        elif e[0] in ("num", "str", "sym"):
+            pass
+        else:
+            for x in e[1:]:
+                free_vars(x, acc)
+    return acc
+
+
+def map_trans(t, fv, ts):
+    """rebuild a transition with every value passed through fv (value -> value); array indices through the same map"""
+    def fa_ix(a):
+        r = fv(aff_ir(a))
+        rr = ts.ex.aff(r)
+        if rr is None:
+            raise Unsupported("array index is no longer affine")
+        return rr
+    out = dict(t)
+    out["key"] = [(fv(a), b) for a, b in t["key"]]
+    out["scal"] = {v: fv(x) for v, x in t["scal"].items()}
+    out["arrays"] = {b: [(fa_ix(i), fv(x)) for i, x in st] for b, st in t["arrays"].items()}
+    out["acc"] = [(b, fa_ix(i), rw) for b, i, rw in t["acc"]]
+    out["ret"] = fv(t["ret"]) if t.get("ret") is not None else None
+    out["exc"] = fv(t["exc"]) if isinstance(t.get("exc"), tuple) else t.get("exc")
+    return out
+
+
+def subst_vars(e, mp, ex):
+    """replace start symbols: mp = {name: value}; integer names may map to affine values"""
+    def go(e):
+        if not isinstance(e, tuple) or not e:
+            return e
+        k = e[0]
+        if k == "var":
+            return mp.get(e[1], e)
+        if k == "aff":
+            a = Aff({}, e[2])
+            for v, c in e[1]:
+                r = mp.get(v)
+                if r is None:
+                    a = a + V(v).scale(c)
+                else:
+                    ra = ex.aff(r)
+                    if ra is None:
+                        raise Unsupported("non-affine substitution into an integer expression")
+                    a = a + ra.scale(c)
+            return aff_ir(a)
+        if k in ("num", "str", "null", "bool", "sym", "unknown"):
+            return e
+        if k == "opq":
+            return ("opq", e[1], tuple(go(x) for x in e[2]), e[3])
+        if k in ("bin", "cmp"):
+            return ex.simp((k, e[1], go(e[2]), go(e[3])))
+        if k in ("neg", "abs"):
+            return ex.simp((k, go(e[1])))
+        return tuple(go(x) if isinstance(x, tuple) else x for x in e)
+    return go(e)
+
+
+def build_ts(ex):
+    ts = TS(ex)
+    top = {}
+    nphase = 0
+    for s, depth, parent in ex.loops:
+        lid = ex.loop_ids[id(s)]
+        if depth == 0:
+            nphase += 1
+            top[id(s)] = nphase
+            ts.phase[lid] = nphase
+        else:
+            top[id(s)] = top[id(parent)]
+            ts.phase[lid] = top[id(parent)]
+    ts.phase[START] = 0
+    ts.phase[EPI] = 98
+    for n in (END, RAISE, FAIL):
+        ts.phase[n] = 99
+    ts.nodes = [n for n in ex.node_order]
+    for n in ts.nodes:
+        if n not in ts.phase:
+            raise Unsupported(f"cut point {n} without a phase")
+    ts.state[START] = {}
+    for n, tm in ex.templates.items():
+        ts.state[n] = {v: ("int" if k[0] in ("int", "ptr") else "float") for v, k in tm.items() if k[0] != "const"}
+    for n in (END, RAISE, FAIL):
+        ts.state[n] = {}
+    ts.allocs = {b: dict(i) for b, i in ex.allocs.items()}
+    for t in ex.trans:
+        dst = t["dst"]
+        scal = {}
+        tm = ex.templates.get(dst, {})
+        for v, kind in tm.items():
+            val = t["env"].get(v)
+            if kind[0] == "const":
+                if val is not None and val != kind[1]:
+                    raise Unsupported(f"`{v}` was taken for a constant of the loop at {dst} but arrives with another value")
+                continue
+            if val is None:
+                val = ("var", v)
+            if kind[0] == "ptr":
+                if val[0] != "ptr" or val[1] != kind[1]:
+                    raise Unsupported(f"pointer `{v}` arrives at {dst} pointing into another array")
+                val = val[2]
+            if val == ("unknown",):
+                val = ("unknown",)
+            scal[v] = val
+        arrays = {b: list(st) for b, st in t["mem"].items() if not b.startswith("local:")}
+        acc = [(b, i, rw) for b, i, rw in t["acc"] if not b.startswith("local:")]
+        ts.trans.append(dict(src=t["src"], dst=dst, key=list(t["key"]), scal=scal, arrays=arrays, acc=acc, events=list(t["events"]), ret=t["ret"], exc=t["exc"]))
+    # reads of variables that are not part of the state at the source: uninitialised
+    for t in ts.trans:
+        ok = set(ts.state[t["src"]]) | {p for p in ex.params}
+        fv = set()
+        for v in values_of(t):
+            free_vars(v, fv)
+        bad = sorted(x for x in fv - ok)
+        if bad:
+            raise Unsupported(f"{t['src']} -> {t['dst']}: `{bad[0]}` is read before it is assigned")
+    return ts
+
+
+# ---- roles
+def assign_roles(ts):
+    """name the arrays by what they are used for, not by how the source calls them"""
+    inp = [b for b, i in ts.allocs.items() if i["kind"] == "input"]
+    outs = [b for b, i in ts.allocs.items() if i["kind"] == "out"]
+    work = [b for b, i in ts.allocs.items() if i["kind"] == "work"]
+    roles = {}
+    if len(inp) != 1:
+        raise Unsupported(f"expected one input array, found {inp}")
+    roles[inp[0]] = "peaks"
+    for b in outs:
+        c = ts.allocs[b]["cols"]
+        r = {3: "rf", 2: "os"}.get(c)
+        if r is None or r in roles.values():
+            raise Unsupported(f"output array {b} with {c} columns")
+        roles[b] = r
+
+    def mentions_input(v):
+        if isinstance(v, tuple) and v:
+            if v[0] == "sel" and v[1] == inp[0]:
+                return True
+            return any(mentions_input(x) for x in v[1:])
+        return False
+    for b in work:
+        holds_data = any(mentions_input(v) for t in ts.trans for i, v in t["arrays"].get(b, []))
+        r = "pts" if holds_data else "cycle_index"
+        if r in roles.values():
+            raise Unsupported(f"two work arrays in the role of {r}")
+        roles[b] = r
+    ts.roles = roles
+
+    def rn(e):
+        if not isinstance(e, tuple) or not e:
+            return e
+        if e[0] == "sel":
+            return ("sel", roles.get(e[1], e[1]), rn(e[2]))
+        if e[0] == "ptr":
+            return ("ptr", roles.get(e[1], e[1]), rn(e[2]))
+        if e[0] == "obj" and e[1] == "view":
+            return ("obj", "view", roles.get(e[2], e[2]), rn(e[3]))
+        if e[0] in ("num", "str", "sym", "var", "aff"):
+            return e
+        return tuple(rn(x) if isinstance(x, tuple) else x for x in e)
+    out = []
+    for t in ts.trans:
+        t2 = map_trans(t, rn, ts)
+        t2["arrays"] = {roles.get(b, b): st for b, st in t2["arrays"].items()}
+        t2["acc"] = [(roles.get(b, b), i, rw) for b, i, rw in t2["acc"]]
+        t2["events"] = [tuple(roles.get(x, x) if isinstance(x, str) else x for x in ev) for ev in t["events"]]
+        out.append(t2)
+    ts.trans = out
+    ts.allocs = {roles.get(b, b): i for b, i in ts.allocs.items()}
+    return ts
+
+
+# ---- cached array elements
+def eliminate_caches(ts):
+    """a float state variable A with A == base[e] at the head of a loop nest (e integer-affine in the loop's counters) is replaced by
+    base[e]: proved by induction over the transitions of the nest, which must leave `base` alone"""
+    ex = ts.ex
+    for p in ts.phases():
+        nodes = [n for n in ts.nodes if ts.phase[n] == p]
+        ent, inn = ts.entries(p), ts.inner(p)
+        fvars = sorted({v for n in nodes for v, k in ts.state[n].items() if k == "float"})
+        ivars = sorted({v for n in nodes for v, k in ts.state[n].items() if k == "int"})
+        for A in fvars:
+            ev = [t["scal"].get(A) for t in ent]
+            if not ev or any(v is None or v[0] != "sel" or v[2][0] != "num" for v in ev) or len({(v[1], v[2]) for v in ev}) != 1:
+                continue
+            base, c = ev[0][1], ev[0][2][1]
+            if any(t["arrays"].get(base) for t in ent + inn):
+                continue
+            cands = [Aff({}, c)]
+            for k in ivars:
+                kv = [t["scal"].get(k) for t in ent]
+                if kv and all(v is not None and v[0] == "num" for v in kv) and len({v[1] for v in kv}) == 1:
+                    cands.append(V(k) + (c - kv[0][1]))
+            found = None
+            for e in cands:
+                ok = True
+                for t in inn:
+                    if A not in ts.state[t["dst"]]:
+                        continue
+                    new = t["scal"].get(A, ("var", A))
+                    mp = {}
+                    for v in e.c:
+                        nv = t["scal"].get(v, ("var", v))
+                        mp[v] = nv
+                    try:
+                        want = ("sel", base, subst_vars(aff_ir(e), mp, ex))
+                    except Unsupported:
+                        ok = False
+                        break
+                    if new != want and new != ("var", A) or (new == ("var", A) and want != ("sel", base, aff_ir(e))):
+                        ok = False
+                        break
+                if ok:
+                    found = e
+                    break
+            if found is None:
+                continue
+            rep = ("sel", base, aff_ir(found))
+            new_trans = []
+            for t in ts.trans:
+                if ts.phase[t["src"]] == p:
+                    t = map_trans(t, lambda x, rep=rep, A=A: subst_vars(x, {A: rep}, ex), ts)
+                    if any(b == base and rw == "r" for b, i, rw in t["acc"]) is False:
+                        pass
+                if ts.phase[t["dst"]] == p and A in t["scal"]:
+                    t = dict(t, scal={v: x for v, x in t["scal"].items() if v != A})
+                new_trans.append(t)
+            ts.trans = new_trans
+            for n in nodes:
+                ts.state[n].pop(A, None)
+            ts.notes.append(f"phase {p}: {A} == {base}[{found}] (proved by induction), replaced")
+    return ts
+
+
+# ---- integer re-parametrisation
+def reparametrise(ts):
+    ex = ts.ex
+    phases = ts.phases()
+    web = {}       # (var, phase) -> web id
+    c0 = {}        # web id -> entry constant
+    scal_ok = {}   # web id -> may be scaled
+    for v in ts.int_vars():
+        prev = None
+        for p in phases:
+            nodes = [n for n in ts.nodes if ts.phase[n] == p]
+            if not any(v in ts.state[n] for n in nodes):
+                prev = None
+                continue
+            vals = [t["scal"].get(v, ("var", v)) for t in ts.entries(p) if v in ts.state[t["dst"]]]
+            if vals and all(x[0] == "num" for x in vals) and len({x[1] for x in vals}) == 1:
+                w = (v, p)
+                c0[w] = vals[0][1]
+                scal_ok[w] = True
+            elif vals and all(x == ("var", v) for x in vals) and prev is not None:
+                w = prev
+            else:
+                w = (v, p)
+                c0[w] = Fraction(0)
+                scal_ok[w] = False
+            web[(v, p)] = w
+            prev = w
+    g = {}
+    for w in set(web.values()):
+        v = w[0]
+        ps = {p for (vv, p), ww in web.items() if ww == w}
+        ds = []
+        ok = scal_ok[w]
+        for t in ts.trans:
+            if ts.phase[t["src"]] in ps and ts.phase[t["dst"]] in ps and v in ts.state[t["dst"]] and v in ts.state[t["src"]]:
+                val = t["scal"].get(v, ("var", v))
+                a = ex.aff(val) if ex.is_int(val) else None
+                if a is None:
+                    ok = False
+                    break
+                if not a.c:
+                    ds.append(a.k - c0[w])
+                elif set(a.c) == {v} and a.c[v] == 1:
+                    ds.append(a.k)
+                else:
+                    ok = False
+                    break
+        gg = _gcd_all(ds) if ok and ds else 1
+        g[w] = gg if gg > 1 else 1
+        if not ok:
+            g[w] = 1
+
+    def par(v, node):
+        p = ts.phase[node]
+        w = web.get((v, p))
+        if w is None:
+            return Fraction(0), 1
+        return c0[w], g[w]
+    new = []
+    for t in ts.trans:
+        src, dst = t["src"], t["dst"]
+        mp = {}
+        for v, k in ts.state[src].items():
+            if k == "int":
+                c, gg = par(v, src)
+                if c != 0 or gg != 1:
+                    mp[v] = aff_ir(V(v).scale(gg) + c)
+        t2 = map_trans(t, lambda x, mp=mp: subst_vars(x, mp, ex), ts) if mp else dict(t)
+        sc = dict(t2["scal"])
+        for v, k in ts.state[dst].items():
+            if k != "int" or v not in sc:
+                continue
+            c, gg = par(v, dst)
+            if c == 0 and gg == 1:
+                continue
+            a = ex.aff(sc[v]) if ex.is_int(sc[v]) else None
+            if a is None:
+                raise Unsupported(f"non-affine update of the counter {v}")
+            a = (a - c).scale(Fraction(1, gg))
+            if any(x.denominator != 1 for x in list(a.c.values()) + [a.k]):
+                raise Unsupported(f"counter {v}: increments are not multiples of {gg}")
+            sc[v] = aff_ir(a)
+        t2["scal"] = sc
+        new.append(t2)
+    ts.trans = new
+    for (v, p), w in sorted(web.items()):
+        if c0[w] != 0 or g[w] != 1:
+            ts.notes.append(f"{v} (phase {p}) = {c0[w]} + {g[w]}*{v}'")
+    ts.params = {k: (c0[w], g[w]) for k, w in web.items()}
+    return ts
+
+
+# ---- equal variables, dead variables
+def merge_equal(ts):
+    ex = ts.ex
+    ivars = ts.int_vars()
+    presence = {v: tuple(n for n in ts.nodes if v in ts.state.get(n, {})) for v in ivars}
+    classes = {}
+    for v in ivars:
+        classes.setdefault(presence[v], []).append(v)
+    part = [sorted(c) for c in classes.values()]
+    for _ in range(10):
+        rep = {v: c[0] for c in part for v in c}
+        mp = {v: ("var", r) for v, r in rep.items() if v != r}
+
+        def sig(v):
+            out = []
+            for i, t in enumerate(ts.trans):
+                if v in ts.state[t["dst"]]:
+                    val = t["scal"].get(v, ("var", v))
+                    out.append((i, repr(subst_vars(val, mp, ex))))
+            return tuple(out)
+        new = []
+        for c in part:
+            groups = {}
+            for v in c:
+                groups.setdefault(sig(v), []).append(v)
+            new.extend(sorted(gp) for gp in groups.values())
+        if sorted(new) == sorted(part):
+            break
+        part = new
+    rep = {v: c[0] for c in part for v in c}
+    mp = {v: ("var", r) for v, r in rep.items() if v != r}
+    if mp:
+        out = []
+        for t in ts.trans:
+            t2 = map_trans(t, lambda x: subst_vars(x, mp, ex), ts)
+            t2["scal"] = {v: x for v, x in t2["scal"].items() if v not in mp}
+            out.append(t2)
+        ts.trans = out
+        for n in ts.state:
+            for v in mp:
+                ts.state[n].pop(v, None)
+        for v, r in sorted(mp.items()):
+            ts.notes.append(f"{v} == {r[1]} (proved by induction), merged")
+    return ts
+
+
+def observables(t, with_ret=False, with_acc=True):
+    for a, _ in t["key"]:
+        yield a
+    for st in t["arrays"].values():
+        for i, v in st:
+            yield aff_ir(i)
+            yield v
+    if with_acc:
+        for b, i, rw in t["acc"]:
+            yield aff_ir(i)
+    if with_ret and t.get("ret") is not None:
+        yield t["ret"]
+    if isinstance(t.get("exc"), tuple):
+        yield t["exc"]
+
+
+def liveness(ts, with_ret=False):
+    live = {n: set() for n in ts.state}
+    changed = True
+    while changed:
+        changed = False
+        for t in ts.trans:
+            if t["src"] == EPI and not with_ret:
+                continue
+            need = set()
+            for v in observables(t, with_ret):
+                free_vars(v, need)
+            for v in live[t["dst"]]:
+                free_vars(t["scal"].get(v, ("var", v)), need)
+            need &= set(ts.state[t["src"]])
+            if not need <= live[t["src"]]:
+                live[t["src"]] |= need
+                changed = True
+    return live
+
+
+def drop_dead(ts, with_ret=False):
+    live = liveness(ts, with_ret)
+    for n in ts.state:
+        dead = [v for v in ts.state[n] if v not in live[n]]
+        for v in dead:
+            del ts.state[n][v]
+    for t in ts.trans:
+        t["scal"] = {v: x for v, x in t["scal"].items() if v in ts.state[t["dst"]]}
+    return ts
+
+
+def drop_arrays(ts, bases):
+    ts = ts.copy()
+    for t in ts.trans:
+        t["arrays"] = {b: st for b, st in t["arrays"].items() if b not in bases}
+        t["acc"] = [a for a in t["acc"] if a[0] not in bases]
+    return ts
+
+
+def normalise(ts, with_ret=False):
+    ts = ts.copy()
+    eliminate_caches(ts)
+    drop_dead(ts, with_ret)
+    reparametrise(ts)
+    merge_equal(ts)
+    drop_dead(ts, with_ret)
+    return ts
+
+
+# ---------------------------------------------------------------------------
+# comparison
+def _atom_cons(a, taken, ex):
+    """integer test -> list of alternative constraint lists (None: not an integer test)"""
+    if a[0] == "ige":
+        d = ex.aff(a[1])
+        return [[(d, "ge")]] if taken else [[(-d - 1, "ge")]]
+    if a[0] == "ieq":
+        d = ex.aff(a[1])
+        return [[(d, "eq")]] if taken else [[(d - 1, "ge")], [(-d - 1, "ge")]]
     return None
+
+
+def guard_of(t, ex):
+    """(integer constraints, disjunctions [[alt constraints, ...], ...] from integer disequalities, {data atom repr: taken})"""
+    cons, disj, data = [], [], {}
+    for a, taken in t["key"]:
+        alts = _atom_cons(a, taken, ex)
+        if alts is None:
+            data[repr(a)] = taken
+        elif len(alts) == 1:
+            cons += alts[0]
+        else:
+            disj.append(alts)
+    return cons, disj, data
+
+
+def feasible_with(cons, disj):
+    """conjunction of `cons` and of one alternative of every disjunction"""
+    if not disj:
+        return feasible(cons)
+    return any(feasible_with(cons + alt, disj[1:]) for alt in disj[0])
+
+
+def equalities(cons):
+    """substitution {var: Aff} implied by the constraints"""
+    sub = {}
+    cons = list(cons)
+    for _ in range(8):
+        eqs = [a for a, k in cons if k == "eq" and a.c] + implied_eqs(cons)
+        progress = False
+        for e in eqs:
+            if any(v in sub for v in e.c):
+                continue
+            cand = [v for v, x in sorted(e.c.items()) if abs(x) == 1 and not v.startswith("<")]
+            if not cand:
+                continue
+            v = cand[0]
+            rest = Aff({w: x for w, x in e.c.items() if w != v}, e.k).scale(-1 / e.c[v])
+            sub[v] = rest
+            cons = [(a.subs(v, rest), k) for a, k in cons]
+            cons = [(a, k) for a, k in cons if a.c] + [(V(v) - rest, "eq")]
+            progress = True
+            break
+        if not progress:
+            break
+    return sub
+
+
+def array_final(st, cons):
+    """ordered stores [(index Aff, value)] -> {index repr: value repr}; a later store to the same index wins; two stores whose index
+    relation is undecided are an analysis error"""
+    out = {}
+    order = []
+    for n, (i, v) in enumerate(st):
+        for i2, _ in st[n + 1:]:
+            d = i2 - i
+            if d.c and feasible(cons + [(d, "eq")]) and (feasible(cons + [(d - 1, "ge")]) or feasible(cons + [(-d - 1, "ge")])):
+                raise Unsupported(f"two stores with undecided index relation ({i} / {i2})")
+        out[repr(i)] = show(v)
+        order.append(repr(i))
+    return out
+
+
+def effect_repr(t, ts, sub, live_dst, cons):
+    ex = ts.ex
+    mp = {v: aff_ir(a) for v, a in sub.items()}
+
+    def f(x):
+        return subst_vars(x, mp, ex) if mp else x
+    t2 = map_trans(t, f, ts) if mp else t
+    scal = {v: show(t2["scal"].get(v, ("var", v))) for v in sorted(live_dst)}
+    arrays = {b: array_final(st, cons) for b, st in sorted(t2["arrays"].items()) if st}
+    exc = show(t2["exc"]) if isinstance(t2.get("exc"), tuple) else None
+    return {"to": t2["dst"], "scalars": scal, "stores": arrays, "exception": exc}
+
+
+def rename_ts(ts, mp):
+    """rename state variables (a bijection on names)"""
+    ts = ts.copy()
+    ex = ts.ex
+    vmap = {v: ("var", w) for v, w in mp.items()}
+    for v, w in mp.items():
+        if v in ex.ints:
+            ex.ints.add(w)
+    out = []
+    for t in ts.trans:
+        t2 = map_trans(t, lambda x: subst_vars(x, vmap, ex), ts)
+        t2["scal"] = {mp.get(v, v): x for v, x in t2["scal"].items()}
+        out.append(t2)
+    ts.trans = out
+    ts.state = {n: {mp.get(v, v): k for v, k in s.items()} for n, s in ts.state.items()}
+    return ts
+
+
+def compare_named(a, b, only=None):
+    """first difference between two normalised transition systems whose state variables already carry the same names (None: equal);
+    `only`: restrict the comparison of the transitions to those leaving one cut point"""
+    ex = a.ex
+    if a.nodes != b.nodes or any(a.phase[n] != b.phase[n] for n in a.nodes):
+        return {"what": "loop structure", "left": a.nodes, "right": b.nodes}
+    for n in a.nodes:
+        if a.state[n] != b.state[n]:
+            return {"what": f"state variables at {n}", "left": sorted(a.state[n].items()), "right": sorted(b.state[n].items())}
+    for n in a.nodes:
+        if n == EPI or (only is not None and n != only):
+            continue         # the epilogue (what is returned) is decided per implementation by the counter-balance rule
+        TA, TB = a.from_(n), b.from_(n)
+        GA = [guard_of(t, ex) for t in TA]
+        GB = [guard_of(t, ex) for t in TB]
+        hitA, hitB = [False] * len(TA), [False] * len(TB)
+        for i, ta in enumerate(TA):
+            for j, tb in enumerate(TB):
+                ca, ja, da = GA[i]
+                cb, jb, db = GB[j]
+                if any(k in db and db[k] != v for k, v in da.items()):
+                    continue
+                cons = ca + cb
+                if not feasible_with(cons, ja + jb):
+                    continue
+                hitA[i] = hitB[j] = True
+                sub = equalities(cons)
+                if ta["dst"] != tb["dst"]:
+                    return {"what": f"from {n}: under the same conditions one goes to {ta['dst']}, the other to {tb['dst']}",
+                            "left": [(show(x), y) for x, y in ta["key"]], "right": [(show(x), y) for x, y in tb["key"]]}
+                live = set(a.state.get(ta["dst"], {}))
+                ea = effect_repr(ta, a, sub, live, cons)
+                eb = effect_repr(tb, b, sub, live, cons)
+                if ea != eb:
+                    part = next(k for k in ea if ea[k] != eb[k])
+                    return {"what": f"{n} -> {ta['dst']}: different {part}", "when": [f"{show(x)} is {y}" for x, y in ta["key"]],
+                            "left": ea[part], "right": eb[part]}
+        for i, h in enumerate(hitA):
+            if not h and feasible_with(GA[i][0], GA[i][1]):
+                return {"what": f"from {n}: a path of the left side has no counterpart", "left": [(show(x), y) for x, y in TA[i]["key"]]}
+        for j, h in enumerate(hitB):
+            if not h and feasible_with(GB[j][0], GB[j][1]):
+                return {"what": f"from {n}: a path of the right side has no counterpart", "right": [(show(x), y) for x, y in TB[j]["key"]]}
+    return None
+
+
+def compare(a, b):
+    """a, b normalised.  Tries the renamings of b's state variables onto a's (same kind, same set of cut points) and returns
+    (first difference under the best renaming | None, renaming)"""
+    def sig(ts):
+        out = {}
+        for n in ts.nodes:
+            for v, k in ts.state[n].items():
+                out.setdefault(v, [k, []])[1].append(n)
+        return {v: (k, tuple(ns)) for v, (k, ns) in out.items()}
+    sa, sb = sig(a), sig(b)
+    ga, gb = {}, {}
+    for v, s in sa.items():
+        ga.setdefault(s, []).append(v)
+    for v, s in sb.items():
+        gb.setdefault(s, []).append(v)
+    if {s: len(v) for s, v in ga.items()} != {s: len(v) for s, v in gb.items()}:
+        return {"what": "state variables (kind, cut points where live)", "left": sorted((v, s[0], s[1]) for v, s in sa.items()),
+                "right": sorted((v, s[0], s[1]) for v, s in sb.items())}, {}
+    groups = sorted(ga)
+    best = None
+    n = 0
+    for perms in itertools.product(*[itertools.permutations(sorted(ga[s])) for s in groups]):
+        n += 1
+        if n > 5000:
+            break
+        mp = {}
+        for s, perm in zip(groups, perms):
+            for vb, va in zip(sorted(gb[s]), perm):
+                mp[vb] = va
+        # two-step renaming through fresh names (a permutation may map x -> y and y -> x)
+        tmp = {vb: f"~{i}" for i, vb in enumerate(sorted(mp))}
+        b2 = rename_ts(rename_ts(b, tmp), {tmp[vb]: va for vb, va in mp.items()})
+        b2.ex = a.ex
+        a.ex.ints |= b.ex.ints
+        d = compare_named(a, b2)
+        if d is None:
+            return None, mp
+        if best is None:
+            best = (d, mp)
+    return best
